@@ -90,9 +90,9 @@ func runC06(env *Env, s Scenario) {
 	env.Res.Extra = map[string]string{"writes": itoa(len(sr.Tr.Writes))}
 	env.Res.Shape = sessionShape(sc)
 	faulted := sc.F.EOFAt >= 0 || sc.F.ErrAt >= 0 || sc.F.WriteErrAt >= 0
-	fired := sr.Tr.FaultFired["eof"]+sr.Tr.FaultFired["readerr"]+sr.Tr.FaultFired["writeerr"] > 0
+	fired := sr.Tr.Faults()["eof"]+sr.Tr.Faults()["readerr"]+sr.Tr.Faults()["writeerr"] > 0
 	env.Res.Nontrivial = faulted && fired
-	for k, v := range sr.Tr.FaultFired {
+	for k, v := range sr.Tr.Faults() {
 		env.Fault(k, v)
 	}
 	if out.Hang {
